@@ -2,7 +2,9 @@
 package checks
 
 import (
+	"errors"
 	"fmt"
+	"io"
 	"sort"
 	"strings"
 
@@ -378,9 +380,21 @@ func (c C14) Run(t *tape.Tape, opt core.RunOpt) (res core.Result) {
 					plan.M = 1 + t.Draw(3)
 				}
 				r := iosim.NewReader(data, plan)
-				err = safeLoad(&res, func() error { return root.ParseReader(r) })
+				var rd io.Reader = r
+				var cl *iosim.Closer
+				if t.Bool(1, 4) {
+					// the reader is an io.ReadCloser whose Close fails
+					cl = &iosim.Closer{Reader: r, Err: errors.New("iosim: close failed")}
+					rd = cl
+				}
+				err = safeLoad(&res, func() error { return root.ParseReader(rd) })
 				faultDesc = plan.String()
 				faultFired = r.Fired
+				if cl != nil && cl.Calls > 0 {
+					faultDesc += " + failing Close"
+					faultFired = true
+					res.Count("fault_reader_close_error", 1)
+				}
 				if err == nil && r.Fired && (plan.Kind == iosim.Transient || plan.Kind == iosim.ErrAt || plan.Kind == iosim.ErrWithByte) {
 					// The reader returned a real error and the loader reported success
 					// (e.g. the error is dropped inside a union member list). C14 says
